@@ -1,5 +1,162 @@
-Require Import V.Lib.Base V.C12.Model.
+(* C12 - theory store returns what was stored, tracks steps, and replays faithfully.
+   Statements only; proofs are in C12/Proofs*.v.  Concrete model: V.C12.Model; abstract table: V.C12.Spec.
+   abs : st -> ast is the observable table of a concrete state (V.C12.ProofsRef);  Inv is the ledger invariant
+   (V.C12.ProofsInv);  wf_op: ids >= 0, numbers 32-bit, symbols NUL-free, atoms < 2^31.                       *)
+Require Import V.Lib.Base V.Lib.Calls V.Gen.Consts V.Gen.Consts_C12 V.C12.Spec V.C12.Model
+  V.C12.ProofsBase V.C12.ProofsInv V.C12.ProofsRef V.C12.ProofsHist V.C12.ProofsVisit V.C12.ProofsFinal.
+Require Import Permutation.
 Local Open Scope Z_scope.
-Example c12_smoke : run_case [0; 1; 0; 7] = [0; 0; 0; 0; 0; 0].
-Proof. vm_compute. reflexivity. Qed.
-Print Assumptions c12_smoke.
+
+(* the tagged 64-bit word gives back every 32-bit number (negative ones included) and never collides with nulTerm *)
+Theorem c12_number : forall n, -2147483648 <= n <= 2147483647 ->
+  number (mk_num n) = n /\ wtype (mk_num n) = Theory_t_Number /\ valid (mk_num n) = true /\ mk_num n <> NUL_TERM /\ 0 <= mk_num n < WORD.
+Proof. exact number_word. Qed.
+Print Assumptions c12_number.
+
+(* every public mutator commutes with the abstraction, returns the table's result code, keeps the ledger invariant
+   and never faults (no double free, no dangling read, no new/delete kind mismatch) *)
+Theorem c12_refines_step : forall s o, Inv s -> wf_op o ->
+  fst (step s o) = fst (s_step (abs s) o) /\ aeq (abs (snd (step s o))) (snd (s_step (abs s) o)) /\
+  Inv (snd (step s o)) /\ fst (step s o) <> EC_FAULT.
+Proof. exact step_refines. Qed.
+Print Assumptions c12_refines_step.
+
+(* all histories from the empty store: same result codes as the plain table, and every lookup
+   (has / isNew / get of terms and elements, the atom list, numAtoms, currBegin) answers as the table does *)
+Theorem c12_refines : forall ops, Forall wf_op ops ->
+  fst (run init ops) = fst (s_run a_init ops) /\
+  aeq (abs (snd (run init ops))) (snd (s_run a_init ops)) /\
+  lookups_agree (snd (run init ops)) (snd (s_run a_init ops)) /\
+  Inv (snd (run init ops)) /\ ~ In EC_FAULT (fst (run init ops)).
+Proof. exact history_refines. Qed.
+Print Assumptions c12_refines.
+
+(* redefinition inside a step is refused and the store (incl. the ledger's cells) is unchanged ... *)
+Theorem c12_redefinition_refused : forall s id, Inv s -> 0 <= id -> isNewTerm s id = true ->
+  (forall n, step s (OAddNum id n) = (EC_REDEF_TERM, s)) /\
+  (forall b, step s (OAddSym id b) = (EC_REDEF_TERM, s)) /\
+  (forall base args, fst (step s (OAddComp id base args)) = EC_REDEF_TERM /\ same_store s (snd (step s (OAddComp id base args)))).
+Proof. exact redefinition_refused. Qed.
+Print Assumptions c12_redefinition_refused.
+Theorem c12_redefinition_refused_elem : forall s id ts c, Inv s -> isNewElement s id = true -> step s (OAddElem id ts c) = (EC_REDEF_ELEM, s).
+Proof. exact redefinition_refused_elem. Qed.
+Print Assumptions c12_redefinition_refused_elem.
+(* ... while redefinition of an item that is not new replaces it *)
+Theorem c12_redefinition_replaces : forall s id n, Inv s -> 0 <= id -> -2147483648 <= n <= 2147483647 -> isNewTerm s id = false ->
+  fst (step s (OAddNum id n)) = 0 /\ getTerm (snd (step s (OAddNum id n))) id = Ok (ANum n).
+Proof. exact redefinition_replaces. Qed.
+Print Assumptions c12_redefinition_replaces.
+
+(* ledger: after every history the live heap cells are exactly the cells owned by stored items (one owner each; the
+   count is the number of stored symbol/compound terms + elements + atoms), no operation faulted, and reset() - hence
+   the destructor - succeeds and leaves the ledger empty *)
+Theorem c12_ledger : forall ops, Forall wf_op ops ->
+  let s := snd (run init ops) in
+  Inv s /\
+  (forall a, (exists o, hfind (hp s) a = Some o) <-> owned s a) /\
+  Permutation (map fst (cells (hp s))) (owners s) /\
+  live (hp s) = Z.of_nat (length (owners s)) /\
+  ~ In EC_FAULT (fst (run init ops)) /\
+  fst (reset s) = 0 /\ cells (hp (snd (reset s))) = [] /\ live (hp (snd (reset s))) = 0.
+Proof. exact history_ledger. Qed.
+Print Assumptions c12_ledger.
+
+(* visiting: the four accept() overloads computed on the plain table ... *)
+Theorem c12_visit_accept : forall cur s, Inv s ->
+  (forall t, accept_term cur s t = s_accept_term cur (abs s) t) /\
+  (forall e, accept_elem cur s e = s_accept_elem cur (abs s) e) /\
+  (forall x, accept_atom cur s x = s_accept_atom cur (abs s) x) /\
+  accept_top cur s = Ok (s_accept_top cur (abs s)).
+Proof. exact accept_abs. Qed.
+Print Assumptions c12_visit_accept.
+(* ... reach, in mode all, exactly the referenced ids, in order, iff all of them are stored (otherwise getTerm's logic_error
+   after the ids before the first unknown one) and every visited item is handed over with its stored content *)
+Theorem c12_visit_all : forall a ids,
+  (snd (s_term_visits false a ids) = 0 <-> forall id, In id ids -> T a id <> None) /\
+  (snd (s_term_visits false a ids) = 0 -> map vref_id (fst (s_term_visits false a ids)) = ids) /\
+  (snd (s_term_visits false a ids) <> 0 ->
+     snd (s_term_visits false a ids) = EC_UNKNOWN_TERM /\
+     exists pre x post, ids = pre ++ x :: post /\ T a x = None /\ map vref_id (fst (s_term_visits false a ids)) = pre).
+Proof. exact s_term_visits_all. Qed.
+Print Assumptions c12_visit_all.
+Theorem c12_visit_atom_all : forall a x,
+  T a (a_term x) <> None -> (forall e, In e (a_elems x) -> E a e <> None) -> (forall t, In t (atom_term_refs x) -> T a t <> None) ->
+  snd (s_accept_atom false a x) = 0 /\ map vref_id (fst (s_accept_atom false a x)) = a_term x :: a_elems x ++ atom_term_refs x.
+Proof. exact s_accept_atom_all_ok. Qed.
+Print Assumptions c12_visit_atom_all.
+(* ... and in mode current only the new ones, never failing *)
+Theorem c12_visit_current : forall a,
+  (forall ids, snd (s_term_visits true a ids) = 0 /\ map vref_id (fst (s_term_visits true a ids)) = filter (s_new_term a) ids) /\
+  (forall ids, snd (s_elem_visits true a ids) = 0 /\ map vref_id (fst (s_elem_visits true a ids)) = filter (s_new_elem a) ids) /\
+  (forall x, snd (s_accept_atom true a x) = 0 /\
+     map vref_id (fst (s_accept_atom true a x)) =
+       filter (s_new_term a) [a_term x] ++ filter (s_new_elem a) (a_elems x) ++ filter (s_new_term a) (atom_term_refs x)).
+Proof. intro a. split; [apply s_term_visits_cur|split; [apply s_elem_visits_cur|apply s_accept_atom_cur]]. Qed.
+Print Assumptions c12_visit_current.
+Theorem c12_visit_sound : forall cur a x, Forall (vref_ok cur a) (fst (s_accept_atom cur a x)).
+Proof. exact s_accept_atom_sound. Qed.
+Print Assumptions c12_visit_sound.
+
+(* the recursive printing visitor used by the harness (marks an item before descending): it terminates within its fuel,
+   never faults, and every call it emits is the directive of a stored item (a new one / a current-step atom in mode
+   current).  PARTIAL: that it emits EVERY item reachable from the atoms (completeness of the closure) is not proved here;
+   the one-level exactness above is proved, the closure is checked by the oracle's independent reachability computation. *)
+Theorem c12_visitor_partial : forall cur s, Inv s ->
+  Forall (call_ok cur (abs s)) (fst (visit cur s)) /\ snd (visit cur s) <> EC_FAULT.
+Proof. exact visit_sound. Qed.
+Print Assumptions c12_visitor_partial.
+
+(* print(): what was added comes back as the directive that was added *)
+Theorem c12_print : forall s, Inv s ->
+  (forall id n, wf_op (OAddNum id n) -> fst (step s (OAddNum id n)) = 0 ->
+     getTerm (snd (step s (OAddNum id n))) id = Ok (ANum n) /\ call_of_term id (ANum n) = CTNum id n) /\
+  (forall id b, wf_op (OAddSym id b) -> fst (step s (OAddSym id b)) = 0 ->
+     getTerm (snd (step s (OAddSym id b))) id = Ok (ASym b) /\ call_of_term id (ASym b) = CTSym id b) /\
+  (forall id base args, wf_op (OAddComp id base args) -> fst (step s (OAddComp id base args)) = 0 ->
+     getTerm (snd (step s (OAddComp id base args))) id = Ok (AComp base args) /\ call_of_term id (AComp base args) = CTComp id base args) /\
+  (forall id ts c, wf_op (OAddElem id ts c) -> fst (step s (OAddElem id ts c)) = 0 ->
+     getElement (snd (step s (OAddElem id ts c))) id = Ok (mke ts c) /\ call_of_elem id (mke ts c) = CTElem id ts [c]) /\
+  (forall a t es g, wf_op (OAddAtom a t es g) ->
+     atom_views (hp (snd (step s (OAddAtom a t es g)))) (atoms (snd (step s (OAddAtom a t es g)))) = Ok (vA s ++ [mka a t es g]) /\
+     call_of_atom (mka a t es g) = match g with None => CTAtom a t es | Some (o, r) => CTAtomG a t es o r end).
+Proof. exact print_roundtrip. Qed.
+Print Assumptions c12_print.
+
+(* filter removes exactly the current-step atoms with a non-zero atom id that satisfy the predicate; everything else
+   (older atoms, terms, elements, the mark) is untouched and the ledger shrinks by exactly the removed atoms *)
+Theorem c12_filter : forall s p, Inv s ->
+  let s' := snd (step s (OFilter p)) in
+  let k := Z.to_nat (fatom s) in
+  fst (step s (OFilter p)) = 0 /\ Inv s' /\
+  vA s' = firstn k (vA s) ++ filter (atom_kept p) (skipn k (vA s)) /\
+  (forall x, In x (filter (atom_kept p) (skipn k (vA s))) <-> In x (skipn k (vA s)) /\ (a_atom x = 0 \/ p x = false)) /\
+  (forall id, vT s' id = vT s id) /\ (forall id, vE s' id = vE s id) /\ fatom s' = fatom s /\
+  live (hp s') = live (hp s) - Z.of_nat (length (skipn k (vA s))) + Z.of_nat (length (filter (atom_kept p) (skipn k (vA s)))).
+Proof. exact filter_exact. Qed.
+Print Assumptions c12_filter.
+
+(* known finding symbol-nul: with a NUL byte inside a symbol the stored content does not come back *)
+Theorem c12_symbol_nul_refuted : exists b, fst (step init (OAddSym 0 b)) = 0 /\ getTerm (snd (step init (OAddSym 0 b))) 0 <> Ok (ASym b).
+Proof. exact symbol_nul_refuted. Qed.
+Print Assumptions c12_symbol_nul_refuted.
+
+(* ---------- non-vacuity ---------- *)
+Definition ex_ops : list op :=
+  [OAddSym 0 [102]; OAddNum 1 (-1); OAddComp 2 0 [1; 1]; OAddComp 5 (-1) []; OAddElem 0 [2] COND_DEFERRED; OSetCond 0 7;
+   OAddAtom 1 0 [0] (Some (0, 1)); OUpdate; OAddNum 1 (-2147483648); ORemoveTerm 5; OAddAtom 2 0 [] None; OAddAtom 0 0 [] None;
+   OFilter (fun _ => true); OAddComp 7 0 []; OAddComp 7 0 [1]].
+Example ex_wf : Forall wf_op ex_ops.
+Proof. unfold ex_ops, wf_op, nul_free, ATOM_MOD. repeat constructor; lia. Qed.
+(* a non-trivial reachable state: it satisfies Inv (by c12_refines), holds 6 live cells, stores items of every kind,
+   refused the last operation (redefinition inside the step) and has one old and one new term *)
+Example ex_state :
+  let s := snd (run init ex_ops) in
+  Inv s /\ live (hp s) = 6 /\ fst (run init ex_ops) = [0;0;0;0;0;0;0;0;0;0;0;0;0;0;EC_REDEF_TERM] /\
+  isNewTerm s 7 = true /\ isNewTerm s 1 = false /\ hasTerm s 1 = true /\ hasTerm s 5 = false /\
+  getTerm s 1 = Ok (ANum (-2147483648)) /\ getElement s 0 = Ok (mke [2] 7) /\ numAtoms s = 2 /\
+  fst (visit false s) = [CTSym 0 [102]; CTNum 1 (-2147483648); CTComp 2 0 [1; 1]; CTElem 0 [2] [7]; CTAtomG 1 0 [0] 0 1; CTAtom 0 0 []].
+Proof.
+  cbv zeta. split; [apply (c12_refines ex_ops ex_wf)|]. vm_compute. repeat split; reflexivity.
+Qed.
+Example ex_number : number (mk_num (-1)) = -1 /\ number (mk_num (-2147483648)) = -2147483648 /\ mk_num (-1) = 18446744073709551612.
+Proof. vm_compute. repeat split; reflexivity. Qed.
